@@ -250,7 +250,7 @@ ADDED = {
     "C12": "Also: the late second flight, a held poll abandoned while the service moves on, retained slices that must never change, a failed updater lookup after which readers must still progress.",
     "C13": "Also: transient cache write failures, a slow synchronised cache with a cache-behind check at every quiescent point, files that exist with mode 0644 or longer contents.",
     "C14": "Also: histories with vanishing state directory (the search admits 'internal error, nothing changed' for calls whose save may have failed), list-heavy histories by an exact-name caller under lock contention, several callers putting the same new bytes at once, empty values.",
-    "C15": "Also: a second model with two concurrent getters (concurrent_gets_no_lost_update, unlocked_gets_lose_update), installs performed from inside the initial build and from inside a rebuild, rollbacks to earlier versions, a failing cache, a builder held while installs and Gets arrive.",
+    "C15": "Also: a second model with two concurrent getters (concurrent_gets_no_lost_update, unlocked_gets_lose_update), installs performed from inside the initial build and from inside a rebuild, rollbacks to earlier versions, a failing cache, a builder held while installs and Gets arrive; a third model with any number of updaters registered at any moment (every_updater_no_lost_update, late_registration_loses_update) tied to the source by the extracted order watch/read/build and the under-lock scan of register/install/notify (fact_watch_order).",
     "C16": "Also: the defect D8 (a request failing with a context-flavoured error of its own was retried) found by its monitor no_auto_retry and kept as Mode.beforeD8 (d8_original_retries); cancellations carrying a cause; NewUpdater and Fields.Apply as routes to unknown names with lookups disabled.",
     "C17": "Also: uploads that never answer, 90-second uploads alternating with quick ones, a racing write followed by a long quiet stretch, histories that start on a reopened database, an occupied key answering 412 to conditional writes.",
     "C18": "Also: delete-and-recreate under one name, a binary value of more than a mebibyte from file and pipe, checkPutText regenerated from the source (generated_checkPutText), acknowledged_bytes_kept under failing saves.",
